@@ -13,12 +13,20 @@ Definition starts_with_then_any (pre s : bytes) : bool :=
   match decode1 (skipn (length pre) s) with Some (r, _) => negb (r =? 10) | None => false end.
 Definition is_data_attribute (k : bytes) : bool :=
   if negb (starts_with_then_any (B"data-") k) then false else
-  match split k (B"data-") with
-  | _ :: seg :: _ =>
-    if starts_with_then_any (B"xml") seg then false
-    else negb (existsb (fun c => is_upper c || (c =? 59)) seg)
-  | _ => false
+  let rest := trim_prefix k (B"data-") in
+  if starts_with_then_any (B"xml") rest then false
+  else negb (existsb (fun c => is_upper c || (c =? 59)) rest).
+
+(* hasRelToken: ASCII-white-space separated tokens compared with strings.EqualFold *)
+Definition is_ascii_ws (c : N) : bool := (c =? 32) || (c =? 9) || (c =? 10) || (c =? 12) || (c =? 13).
+Fixpoint ascii_fields_go (s cur : bytes) : list bytes :=
+  match s with
+  | [] => match cur with [] => [] | _ => [rev cur] end
+  | c :: s' => if is_ascii_ws c then (match cur with [] => ascii_fields_go s' [] | _ => rev cur :: ascii_fields_go s' [] end)
+               else ascii_fields_go s' (c :: cur)
   end.
+Definition ascii_fields (s : bytes) : list bytes := ascii_fields_go s [].
+Definition has_rel_token (v tok : bytes) : bool := existsb (fun t => equal_fold t tok) (ascii_fields v).
 
 Definition linkable (elem : bytes) : bool := mem elem linkable_elements.
 
@@ -90,7 +98,7 @@ Section Attrs.
       else st) attrs (false, false).
 
   Definition add_word (cond : bool) (w v : bytes) : bytes :=
-    if cond && negb (contains v w) then v ++ [32] ++ w else v.
+    if cond && negb (has_rel_token v w) then v ++ [32] ++ w else v.
 
   (* first loop: returns (tmpAttrs, noFollowFound, noReferrerFound, targetBlankFound) *)
   Definition link_pass1 (is_a addNoFollow addNoReferrer addTargetBlank : bool) (attrs : list attr)
@@ -110,7 +118,7 @@ Section Attrs.
     let has_rel := existsb (key_is (B"rel")) attrs in
     if has_rel then
       map (fun a => if key_is (B"rel") a
-                    then (if contains (aval a) (B"noopener") then a else (akey a, aval a ++ B" noopener"))
+                    then (if has_rel_token (aval a) (B"noopener") then a else (akey a, aval a ++ B" noopener"))
                     else a) attrs
     else attrs ++ [(B"rel", B"noopener")].
 
